@@ -1,4 +1,6 @@
 import PRV.Model.Secrets
+import PRV.Model.BuyerDest
+import PRV.Gen.BuyerDest
 /-
 C18 — Secrets stay secret; encrypted destinations fail closed.
 `Gen.C18` is regenerated from config.go, cmd/main.go and httphandlers/http.go on every run.
@@ -103,5 +105,51 @@ theorem decrypt_rejected {Url : Type} (enc : String) (dec : String → Option St
 
 example : finalStmt "Pool.Address" = some ("Pool.Address", "Pool.Address") := by decide
 example : finalStmt "Marketplace.Mnemonic" = none := by decide
+
+
+/-! ### the encrypted pool destination of a contract held as buyer or validator: fail closed (regenerated + model) -/
+
+section buyerDest
+open PRV.Model.BuyerDest
+
+/-- a refused read of the destination fails the whole read (it is not taken for "no destination"); the factory decrypts whenever a
+destination is given — for buyers and validators alike —, records a decryption or parse error on the contract and still returns
+the contract (it stays watched) -/
+theorem source_buyer_destination_handling :
+    PRV.Gen.BuyerDest.afterEncrDestRead = ["if err != nil { return nil, err }", "if destUrl != \"\" { encryptedDestURL = destUrl }"] ∧
+    PRV.Gen.BuyerDest.decryptGuard = "contractData.DestEncrypted != \"\"" ∧
+    PRV.Gen.BuyerDest.onDecryptError = "watcher.contractErr.Store(destErr)" ∧
+    PRV.Gen.BuyerDest.buyerReturn = "return NewControllerBuyer(watcher, c.store, c.privateKey, false), nil" := by decide
+
+/-- **fail closed**: whenever the chain entry carries a destination, a contract that is picked up either sends the hashrate to
+exactly that destination or carries an error — it is never silently served with the node's default pool -/
+theorem encrypted_destination_fails_closed (r : Role) (p : Payload) (refused : Bool) (c : Contract) (default : String)
+    (hp : p ≠ .none) (h : pickedUp r p refused = some c) :
+    c.err = true ∨ (∃ host, p = .ok host ∧ poolDest c default = host) := by
+  unfold pickedUp readDest at h
+  cases refused <;> simp at h
+  subst h
+  cases p <;> simp_all [create, poolDest]
+
+/-- a destination that decrypts is used as it is, for a buyer as for a validator (contract routing, C15) -/
+theorem decryptable_destination_is_used (r : Role) (host default : String) :
+    pickedUp r (.ok host) false = some { dest := some host, err := false } ∧
+    poolDest (create r (.ok host)) default = host := by
+  cases r <;> simp [pickedUp, readDest, create, poolDest]
+
+/-- a purchase is picked up whatever its destination turns out to be (C16): only a refused call keeps the manager from it, and
+then the manager ends and is restarted (`run_returns_on_every_exit`) -/
+theorem picked_up_whatever_the_destination (r : Role) (p : Payload) : (pickedUp r p false).isSome = true := by
+  simp [pickedUp, readDest]
+
+/-- the default pool is used only when no destination was given -/
+theorem default_pool_only_without_destination (r : Role) (p : Payload) (default : String)
+    (h : poolDest (create r p) default = default) (herr : (create r p).err = false) (hd : ∀ host, p = .ok host → host ≠ default) :
+    p = .none := by
+  cases p <;> simp_all [create, poolDest]
+
+example : pickedUp .buyer .undecryptable false = some { dest := none, err := true } := by decide
+
+end buyerDest
 
 end PRV.Props.C18
